@@ -365,7 +365,7 @@ def coq_eval(name, imports, exprs, chunk=400, timeout=900):
         out, _ = p.communicate()
         if p.returncode != 0:
             errors.append(out[-3000:])
-        for m in re.finditer(r'=\s*\((\d+)%nat,\s*(.*?)\)\s*\n\s*:\s', out, flags=re.S):
+        for m in re.finditer(r'=\s*\((\d+)(?:%nat)?,\s*(.*?)\)\s*\n\s*:\s', out, flags=re.S):
             results[int(m.group(1))] = re.sub(r'\s+', ' ', m.group(2)).strip()
         base = it[0][:-2]
         for ext in ('.v', '.vo', '.vok', '.vos', '.glob'):
